@@ -58,9 +58,13 @@ def generate(seed, tier):
     cases += G.sym_cases(rng, N_SYM[tier])
     cases += G.transform_cases(rng, N_TRANSFORM[tier])
     random.Random(K.harness_seed(seed, ID, 1)).shuffle(cases)
+    nslow = 0
     for i, c in enumerate(cases):
         c["id"] = f"{c['kind']}-{c['family']}-{i}"
         c["budget"] = 6 if tier == "quick" else 20
+        if c["kind"] == "law" and c["family"] == "Beta" and "integer-shapes" not in c["features"]:
+            nslow += 1
+            c["slow_ok"] = (nslow % 5 == 1) if tier == "quick" else (nslow % 4 == 1)
     return cases
 
 
@@ -205,7 +209,11 @@ def expect(law, h):
         else:
             v2, e2 = mp.quad(lambda y: y ** (a - 1) * (1 - y) ** (b - 1) * h(sc * y), [half, 3 * half / 2, 7 * half / 4, 1], error=True)
         return c * (v1 + v2), abs(c) * (e1 + e2)
-    f = laws.pdf(law)
+    f = laws.pdf(law)  # normalising constant computed at 50 digits
+    if fam == "TruncNormal":
+        with mp.workdps(32):
+            v, e = mp.quad(lambda x: h(x) * f(x), laws._quad_points(law), error=True)
+        return +v, +e
     v, e = mp.quad(lambda x: h(x) * f(x), laws._quad_points(law), error=True)
     return v, e
 
@@ -301,9 +309,10 @@ def moment_key(law, k, polar_val, ref, params_sym=None):
             pass
     if fam == "TruncNormal":
         z, al, be = trunc_mass(law)
-        # the window lies >= 4 standard deviations out on one side: Phi(beta)-Phi(alpha) is evaluated in double precision
-        if (al >= 4 or be <= -4) and z < mp.mpf(10) ** -4:
-            return "truncnormal-tail-window-double-cancellation"
+        # tail or very narrow window: Phi(beta)-Phi(alpha) (and the matching numerator) is a difference of nearly equal
+        # numbers that get_moment evaluates in double precision (float(m[k])) -> relative error ~ 1e-16 / mass
+        if z < mp.mpf(10) ** -3:
+            return "truncnormal-small-window-mass-double-cancellation"
     return None
 
 
@@ -328,6 +337,11 @@ def compare_moment(ctx, law, k, m, label="", subs=None):
     try:
         e = to_sympy(m)
         if subs:
+            if e.has(sympy.Float):
+                # a decimal literal inside a parameter expression ("0.5*p") stays a double in Polar's result; it is read
+                # with its decimal meaning here (not what this property is about)
+                e = sympy.nsimplify(e, rational=True)
+                ctx.notes.append("float-coefficient-left-in-moment")
             e = e.subs(subs)
         pv = to_value(e)
     except Leftover as ex:
@@ -343,7 +357,10 @@ def compare_moment(ctx, law, k, m, label="", subs=None):
     if k >= 1:
         ctx.nontrivial = True
     if fam == "TruncNormal" and k >= 1:
-        absk, _ = expect(law, lambda x: abs(x) ** k)
+        if law[3] >= 0 or law[4] <= 0:
+            absk = abs(ref)
+        else:
+            absk, _ = expect(law, lambda x: abs(x) ** k)
         ok = close(pv, ref, 0, TOL_TRUNC * absk)
         relerr = abs(mpq(pv) - ref) / absk
         info = f" (error {mp.nstr(relerr, 3)} relative to E|X|^{k})"
@@ -430,21 +447,17 @@ def transform_key(law, which, t, err):
     return None
 
 
-def check_transform_values(ctx, dist, law, which, ts, budget, subs=None, expr_of_t=None):
+def check_transform_values(ctx, dist, law, which, ts, budget, subs=None):
     """which in cf/mgf: value at the rational points ts against the defining integral / sum"""
     for t in ts:
         if which == "mgf" and not laws.mgf_exists(law, t):
             continue
         try:
             with soft_limit(budget):
-                if expr_of_t is not None:
-                    tsym, ex = expr_of_t
-                    e = ex.subs(tsym, sym_rational(t))
-                    if subs:
-                        e = e.subs(subs)
-                else:
-                    e = getattr(dist, which)(polar_t(t))
-                    ctx.ev(which)
+                e = getattr(dist, which)(polar_t(t))
+                ctx.ev(which)
+                if subs:
+                    e = to_sympy(e).subs(subs)
                 shown = str(e)[:100]
                 try:
                     pv = to_value(e)
@@ -495,16 +508,17 @@ def generic_branch(expr, tsym):
     return e
 
 
-def derivative_at_zero(expr, tsym, k):
-    """k-th derivative at 0 of the function denoted by expr (removable singularities resolved by a limit)"""
+def derivative_at_zero(expr, tsym, k, cache):
+    """k-th derivative at 0 of the function denoted by expr (removable singularities resolved by the Taylor
+    coefficient = limit of the derivative)"""
     import sympy
-    d = sympy.diff(expr, tsym, k)
-    v = d.subs(tsym, 0)
-    if not (v.has(sympy.nan) or v.has(sympy.zoo) or v.has(sympy.oo)):
-        return v
-    # removable singularity: Taylor coefficient
-    ser = sympy.series(expr, tsym, 0, k + 1).removeO()
-    return sympy.factorial(k) * sympy.expand(ser).coeff(tsym, k)
+    if "series" not in cache:
+        d = sympy.diff(expr, tsym, k)
+        v = d.subs(tsym, 0)
+        if not (v.has(sympy.nan) or v.has(sympy.zoo) or v.has(sympy.oo)):
+            return v
+        cache["series"] = sympy.expand(sympy.series(expr, tsym, 0, cache["kmax"] + 1).removeO())
+    return sympy.factorial(k) * cache["series"].coeff(tsym, k)
 
 
 def check_derivatives(ctx, dist, law, which, kmax, budget, subs=None):
@@ -528,10 +542,11 @@ def check_derivatives(ctx, dist, law, which, kmax, budget, subs=None):
     if g is None or g.has(sympy.Integral):
         ctx.skip(f"{which}-derivative-unavailable")
         return (tsym, e)
+    cache = {"kmax": kmax}
     for k in range(1, kmax + 1):
         try:
             with soft_limit(budget):
-                dv = derivative_at_zero(g, tsym, k)
+                dv = derivative_at_zero(g, tsym, k, cache)
                 pv = to_value(dv)
         except SoftTimeout:
             ctx.skip(f"{which}-derivative-soft-timeout")
@@ -622,10 +637,16 @@ def run_law(case, tier):
     cf_ts = [G.dec(t) for t in case["cf_ts"]]
     mgf_ts = [G.dec(t) for t in case["mgf_ts"]]
     slow = fam == "Beta" and not (exact[0].denominator == 1 and exact[1].denominator == 1)
-    if slow:  # sympy returns an unevaluated Integral after several seconds: one point each
-        cf_ts, mgf_ts = cf_ts[1:2], mgf_ts[1:2]
-    check_transform_values(ctx, dist, law, "cf", cf_ts, budget * (2 if slow else 1))
-    check_transform_values(ctx, dist, law, "mgf", mgf_ts, budget * (2 if slow else 1))
+    if slow:
+        # sympy.stats returns an unevaluated Integral after 3..100+ s for non-integer shapes: attempted only when the
+        # generator marked the case, one point, generous soft limit
+        if case.get("slow_ok"):
+            check_transform_values(ctx, dist, law, "cf", cf_ts[1:2], budget * 3)
+        else:
+            ctx.skip("beta-noninteger-transform-not-attempted")
+    else:
+        check_transform_values(ctx, dist, law, "cf", cf_ts, budget)
+        check_transform_values(ctx, dist, law, "mgf", mgf_ts, budget)
     check_mgf_exists(ctx, dist, law, [G.dec(t) for t in case["exist_ts"]])
     if not slow:
         te = check_derivatives(ctx, dist, law, "cf", 3, budget)
@@ -662,17 +683,6 @@ def run_sym(case, tier):
             ctx.refuse(e)
             if fam not in ("Bernoulli", "Categorical", "Uniform", "DistExp"):
                 break  # sympy.stats based families refuse symbols for every k
-    tsym = sympy.Symbol("t", real=True)
-    trans = {}
-    for which in ("cf", "mgf"):
-        try:
-            with soft_limit(budget * 2):
-                trans[which] = to_sympy(getattr(dist, which)(tsym))
-            ctx.ev(which)
-        except SoftTimeout:
-            ctx.skip(f"{which}-symbolic-soft-timeout")
-        except Exception as e:
-            ctx.refuse(e)
     insts = []
     for inst in case["instances"]:
         vals = {k: G.dec(v) for k, v in inst.items()}
@@ -696,10 +706,12 @@ def run_sym(case, tier):
         if idx == 0:
             check_support(ctx, dist, law, subs=subs)
             check_discrete(ctx, dist, law)
+        if fam == "Beta":  # sympy.stats needs minutes (or fails) on the symbolic Beta integral
+            ctx.skip("beta-symbolic-transform-not-attempted")
+            continue
         cf_ts, mgf_ts, _ = G.transform_points(random.Random(idx), fam, list(law[1:]))
         for which, ts in (("cf", cf_ts[:2]), ("mgf", mgf_ts[:2])):
-            if which in trans and not trans[which].has(sympy.Integral):
-                check_transform_values(ctx, dist, law, which, ts, budget, subs=subs, expr_of_t=(tsym, trans[which]))
+            check_transform_values(ctx, dist, law, which, ts, budget, subs=subs)
     # Distribution.subs followed by get_moment (as ConstantsTransformer / MultiAssignTransformer do before the analysis)
     if insts and moments:
         vals, law = insts[0]
